@@ -2,6 +2,7 @@ package mutations
 
 import (
 	"fmt"
+	"sort"
 
 	"github.com/evolbioinfo/goalign/align"
 	"github.com/evolbioinfo/gotree/io"
@@ -44,7 +45,15 @@ func CountEEMs(t *tree.Tree, a align.Alignment) (mutations *MutationList, err er
 			io.LogError(err)
 			return
 		}
-		for _, v := range sitemutations.Mutations {
+		// Sorted keys: which occurrence is kept as representative (its branch index and
+		// node name) must not depend on map iteration order
+		keys := make([]string, 0, len(sitemutations.Mutations))
+		for k := range sitemutations.Mutations {
+			keys = append(keys, k)
+		}
+		sort.Strings(keys)
+		for _, k := range keys {
+			v := sitemutations.Mutations[k]
 			id := fmt.Sprintf("%d-%c-%c", v.AlignmentSite,
 				rune(v.ParentCharacter), rune(v.ChildCharacter))
 			m, ok := mutations.Mutations[id]
